@@ -72,7 +72,9 @@ def interval_from_conds(path, value_pred, facts=None, unknown=None):
         return None
 
     def note(test):
-        if unknown is not None and find_all(test, value_pred_term):
+        # a condition that looks at the value in a form that is not read - or a comparison with an operand the walk kept opaque (it may
+        # well be about the value): the interval is not everything the path knows
+        if unknown is not None and (find_all(test, value_pred_term) or (test[0] in ('cmp', 'bool', 'un') and find_all(test, lambda t: t[0] == 'opaque'))):
             unknown.append(test)
 
     def value_pred_term(t):
